@@ -308,4 +308,24 @@ theorem scan_keeps_stable_keys {c : Cfg} {s0 s1 s : State} (h0 : Reach c s0) {t 
   rw [hfin] at this
   exact this k hp ha hb
 
+/-! ## trace acceptor and `ReachFrom` -/
+
+theorem ReachFrom.head {c : Cfg} {s s1 s' : State} {e : Event} (h : step? c s e = some s1)
+    (hr : ReachFrom c s1 s') : ReachFrom c s s' := by
+  induction hr with
+  | refl => exact ReachFrom.step ReachFrom.refl h
+  | step _ hs ih => exact ReachFrom.step ih hs
+
+theorem reachFrom_exec {c : Cfg} {s s' : State} (es : List Event) (he : exec c s es = some s') :
+    ReachFrom c s s' := by
+  induction es generalizing s with
+  | nil => simp [exec] at he; subst he; exact ReachFrom.refl
+  | cons e es ih =>
+    simp only [exec] at he
+    cases hs : step? c s e with
+    | none => rw [hs] at he; simp at he
+    | some s1 =>
+      rw [hs] at he
+      exact ReachFrom.head hs (ih he)
+
 end Yak.Proto.NodeSet
